@@ -3,7 +3,7 @@
    checks of yaep_read_grammar / check_grammar in the order of the C code;
    [defect_b c] decides the defect documented for code c independently of any
    order; [well_formed_b] is the absence of all of them. *)
-From YV Require Import Prelude Generated ReadGrammar ReadGrammarProofs ReadGrammarSem LoopSem.
+From YV Require Import Prelude EarleySpec Generated ReadGrammar ReadGrammarProofs ReadGrammarSem LoopSem Link.
 Local Open Scope Z_scope.
 
 Theorem C10_ok_iff : forall strict terms rules,
@@ -66,3 +66,15 @@ Theorem C10_loop_check_passes_suffice : forall terms rules,
   lpass (unit_edges terms rules) (loops terms rules) = loops terms rules.
 Proof. intros terms rules. exact (lres_stable (unit_edges terms rules)). Qed.
 Print Assumptions C10_loop_check_passes_suffice.
+
+(* the relation the flags are stated with is derivability in the grammar of the recognition theory (EarleySpec) *)
+Theorem C10_rewriting_is_derivation : forall terms rules l,
+  gen (arules rules) (is_term terms) l <-> exists w, derives (cg terms rules) (map (conv terms) l) w.
+Proof. exact gen_derives. Qed.
+Print Assumptions C10_rewriting_is_derivation.
+
+Theorem C10_rewriting_to_nothing_is_derivation_of_the_empty_string : forall terms rules,
+  (forall s rhs0, In (s, rhs0) (arules rules) -> is_term terms s = false) ->
+  forall l, gen (arules rules) (fun _ => false) l <-> derives (cg terms rules) (map (conv terms) l) [].
+Proof. exact gen_nil_derives. Qed.
+Print Assumptions C10_rewriting_to_nothing_is_derivation_of_the_empty_string.
